@@ -526,16 +526,33 @@ def _env():
                 if 2 in prs:
                     raise MachineryError("C11: scenario forks twice")
                 how = act.get("how", "deepcopy")
-                cp = None
-                if how == "pickle":
+                cp, detached = None, False
+                try:
+                    cp = copy.deepcopy(pr.model) if how == "deepcopy" else pickle.loads(pickle.dumps(pr.model))
+                except RuntimeError as exc:
+                    # after a training-mode forward an MPS quantiser / SuperNet combiner keeps its sampled theta_alpha,
+                    # a NON-LEAF tensor, on the module: neither deepcopy nor pickle accept that.  Not a C11 matter
+                    # (recorded and counted): do what a user has to do - detach those tensors - and copy again
+                    if "graph leaves" not in str(exc) and "non-leaf" not in str(exc).lower():
+                        raise
+                    detached = True
+                    for mod in pr.model.modules():
+                        for store in (vars(mod), mod._buffers):
+                            for k, v in list(store.items()):
+                                if isinstance(v, torch.Tensor) and v.grad_fn is not None:
+                                    store[k] = v.detach()
+                except Exception:
+                    if how != "pickle":     # not every wrapper can be pickled (fx GraphModule of a SuperNet): plain copy
+                        raise
+                if cp is None and how == "pickle":
                     try:
                         cp = pickle.loads(pickle.dumps(pr.model))
-                    except Exception:       # not every wrapper can be pickled (fx GraphModule of a SuperNet): plain copy
+                    except Exception:
                         how = "deepcopy"
                 if cp is None:
                     cp = copy.deepcopy(pr.model)
                 prs[2] = Projector(sc["kind"], cp, x, pr.hmap, parent=pr)
-                logged, status, tgt = {"a": "fork", "how": how}, "-", 2
+                logged, status, tgt = {"a": "fork", "how": how, "detached": detached}, "-", 2
             else:
                 if tgt not in prs:
                     raise MachineryError("C11: scenario addresses a copy before the fork")
@@ -851,91 +868,105 @@ def run(tier: str, seed: int, replay=None) -> int:
                    "NasControlMC_snh_homog", "NasControlMC_pith_homog", "NasControlMC_mpsf_idcache_train",
                    "NasControlMC_snf_idcache_iter", "NasControlMC_pitf_nodiverge"]
 
-    # 1. design level (all TLC runs side by side) + dumps
+    # 1. design level (all TLC runs side by side, in the background) + dumps
     tlc.scratch()
     dots = {cfg: tempfile.mktemp(prefix=f"c11-{cfg}-", suffix=".dot", dir=tlc.scratch()) for _, cfg, _, _, _ in configs}
 
     def design(job):
         cfg, cov = job
         if cov is None:     # sanity (non-vacuity): literal model of the pinned code / broadcast-from-first-block variant /
-            return R.design("NasControlMC", cfg, expect_ok=False, workers=2)    # "never heterogeneous" must FAIL
+            return R.design("NasControlMC", cfg, expect_ok=False, workers=2)    # identity-keyed partition ... must FAIL
         return R.design("NasControlMC", cfg, dump_dot=dots[cfg], coverage=True,
                         require_cov=[f"NasControlMC!{a}" for a in cov], workers=2)
 
     jobs = [(cfg, cov) for _, cfg, _, _, cov in configs] + [(c, None) for c in sanity]
-    with ThreadPoolExecutor(max_workers=5) as ex:
-        results = list(ex.map(design, jobs))
-    edges_total = 0
-    graph_info = {}
-    # 2. spec -> code: walks covering every edge, on every model variant of the configuration
-    for (kind, cfg, hetero, variants, _), res in zip(configs, results):
-        nodes, edges, init = tlc.parse_dot(dots[cfg])
-        if len(nodes) != res.distinct or not init:
-            raise MachineryError(f"dump of {cfg}: {len(nodes)} states, TLC reported {res.distinct}")
-        # canonical order (TLC's node ids and dump order vary from run to run): the walks depend on `seed` only
-        cid = {n: canon(st) for n, st in nodes.items()}
-        nodes = {cid[n]: st for n, st in nodes.items()}
-        edges = sorted((cid[s], cid[d], lab) for s, d, lab in edges)
-        init = sorted(cid[n] for n in init)
-        if len(nodes) != res.distinct:
-            raise MachineryError(f"dump of {cfg}: states are not distinguished by their canonical form")
-        graph_info[cfg] = {"states": len(nodes), "edges": len(edges), "initial": len(init), "models": variants}
-        for variant in variants:
-            hmap = HMAP[(kind, variant)] if hetero else None
-            calls = [_parse_label(lab, hmap) for _, _, lab in edges]
-            walks = _covering_walks(nodes, edges, init, maxlen, random.Random(seed * 7919 + len(scen)))
-            covered = set()
-            for wi, (start, walk) in enumerate(walks):
-                covered.update(walk)
-                acts = [dict(calls[k]) for k in walk]
-                for a in acts:      # copies are taken by deepcopy and, where the wrapper allows, by a pickle round trip
-                    if a["a"] == "fork":
-                        a["how"] = "pickle" if (kind != "sn" and wi % 2 == 1) else "deepcopy"
-                scen.append({"kind": kind, "variant": variant, "init": _init_args(kind, nodes[start], hetero),
-                             "wseed": seed, "acts": acts, "hetero": hetero,
-                             "mc": [_mc_state(nodes[edges[k][1]], hetero, calls[k]) for k in walk], "src": cfg})
-            if len(covered) != len(edges):
-                raise MachineryError(f"{cfg}/{variant}: walks cover {len(covered)} of {len(edges)} edges")
-            edges_total += len(edges)
-
-    # 3. code -> spec: random sequences (model-level and per-layer calls mixed)
-    n_rand = 40 if tier == "quick" else 700
-    rl = 14 if tier == "quick" else 30
-    rvars = {"pit": ["tcn", "cnn2d"], "mps": ["layer", "channel", "channel0"], "sn": ["std"]}
-    if tier != "quick":
-        rvars["pit"] += ["tcn_foldbn", "tcresnet14"]
-        rvars["mps"] += ["simplenn2d:channel"]
-    metas = {(k, v): execute.meta(k, v) for k in rvars for v in rvars[k]}
-    for kind in ("pit", "mps", "sn"):
-        for i in range(n_rand):
-            v = rvars[kind][i % len(rvars[kind])]
-            n_here = rl if v not in ("tcresnet14",) else 10
-            if v in ("tcresnet14", "simplenn2d:channel") and i >= 60:
-                v = rvars[kind][i % 2]
-            scen.append(_random_scenario(kind, v, rng, n_here, metas[(kind, v)]))
-
-    probes = _pairwise_probes(metas)
-    scen += probes
-
-    # interleave the kinds (the first reported violations then show every kind of model)
-    by_kind = {k: [s for s in scen if s["kind"] == k] for k in ("pit", "mps", "sn")}
-    scen = [by_kind[k][i] for i in range(max(map(len, by_kind.values()))) for k in ("pit", "mps", "sn")
-            if i < len(by_kind[k])]
-    # execute in parts; a single background thread lets TLC validate finished parts meanwhile
+    dex = ThreadPoolExecutor(max_workers=5)
+    dfuts = [dex.submit(design, j) for j in jobs]
     traces: List[Dict[str, Any]] = []
-    nparts = 4 if tier == "quick" else 12
-    step = (len(scen) + nparts - 1) // nparts
-    with ThreadPoolExecutor(max_workers=1) as vex:
-        futs = []
-        for lo in range(0, len(scen), step):
-            part_s = scen[lo:lo + step]
-            part_t = [execute(sc) for sc in part_s]
-            traces += part_t
-            futs.append(vex.submit(R.validate, "NasControlTrace", "NasControlTrace", part_t, part_s,
-                                   nontrivial=lambda s: len(s["acts"]) > 0, key=_key,
-                                   label=f"graph walks + random sequences, part {len(futs) + 1}", chunk=1000, workers=8))
-        for f in futs:
+    vex = ThreadPoolExecutor(max_workers=1)     # a single background thread lets TLC validate finished parts meanwhile
+    vfuts = []
+
+    def run_part(part_s):
+        part_t = [execute(sc) for sc in part_s]
+        scen.extend(part_s)
+        traces.extend(part_t)
+        vfuts.append(vex.submit(R.validate, "NasControlTrace", "NasControlTrace", part_t, part_s,
+                                nontrivial=lambda s: len(s["acts"]) > 0, key=_key,
+                                label=f"part {len(vfuts) + 1}: {part_s[0]['src']} ...", chunk=1000, workers=8))
+
+    def interleave(xs):     # the first reported violations then show every kind of model
+        by_kind = {k: [s for s in xs if s["kind"] == k] for k in ("pit", "mps", "sn")}
+        return [by_kind[k][i] for i in range(max(map(len, by_kind.values()))) for k in ("pit", "mps", "sn")
+                if i < len(by_kind[k])]
+
+    try:
+        # 2. code -> spec (while TLC works on the design configs): random sequences (model-level and per-layer calls
+        #    mixed, a copy of the model somewhere) and the pairwise heterogeneity probes
+        n_rand = 40 if tier == "quick" else 700
+        rl = 14 if tier == "quick" else 30
+        rvars = {"pit": ["tcn", "cnn2d"], "mps": ["layer", "channel", "channel0"], "sn": ["std"]}
+        if tier != "quick":
+            rvars["pit"] += ["tcn_foldbn", "tcresnet14"]
+            rvars["mps"] += ["simplenn2d:channel"]
+        metas = {(k, v): execute.meta(k, v) for k in rvars for v in rvars[k]}
+        free: List[Dict[str, Any]] = []
+        for kind in ("pit", "mps", "sn"):
+            for i in range(n_rand):
+                v = rvars[kind][i % len(rvars[kind])]
+                n_here = rl if v not in ("tcresnet14",) else 10
+                if v in ("tcresnet14", "simplenn2d:channel") and i >= 60:
+                    v = rvars[kind][i % 2]
+                free.append(_random_scenario(kind, v, rng, n_here, metas[(kind, v)]))
+        probes = _pairwise_probes(metas)
+        free = interleave(free + probes)
+        fstep = len(free) if tier == "quick" else 300
+        for lo in range(0, len(free), fstep):
+            run_part(free[lo:lo + fstep])
+
+        # 3. spec -> code: walks covering every edge, on every model variant of the configuration
+        results = [f.result() for f in dfuts]
+        edges_total = 0
+        graph_info = {}
+        walks_s: List[Dict[str, Any]] = []
+        for (kind, cfg, hetero, variants, _), res in zip(configs, results):
+            nodes, edges, init = tlc.parse_dot(dots[cfg])
+            if len(nodes) != res.distinct or not init:
+                raise MachineryError(f"dump of {cfg}: {len(nodes)} states, TLC reported {res.distinct}")
+            # canonical order (TLC's node ids and dump order vary from run to run): the walks depend on `seed` only
+            cid = {n: canon(st) for n, st in nodes.items()}
+            nodes = {cid[n]: st for n, st in nodes.items()}
+            edges = sorted((cid[s], cid[d], lab) for s, d, lab in edges)
+            init = sorted(cid[n] for n in init)
+            if len(nodes) != res.distinct:
+                raise MachineryError(f"dump of {cfg}: states are not distinguished by their canonical form")
+            graph_info[cfg] = {"states": len(nodes), "edges": len(edges), "initial": len(init), "models": variants}
+            for variant in variants:
+                hmap = HMAP[(kind, variant)] if hetero else None
+                calls = [_parse_label(lab, hmap) for _, _, lab in edges]
+                walks = _covering_walks(nodes, edges, init, maxlen, random.Random(seed * 7919 + len(walks_s)))
+                covered = set()
+                for wi, (start, walk) in enumerate(walks):
+                    covered.update(walk)
+                    acts = [dict(calls[k]) for k in walk]
+                    for a in acts:  # copies are taken by deepcopy and, where the wrapper allows, by a pickle round trip
+                        if a["a"] == "fork":
+                            a["how"] = "pickle" if (kind != "sn" and wi % 2 == 1) else "deepcopy"
+                    walks_s.append({"kind": kind, "variant": variant, "init": _init_args(kind, nodes[start], hetero),
+                                    "wseed": seed, "acts": acts, "hetero": hetero,
+                                    "mc": [_mc_state(nodes[edges[k][1]], hetero, calls[k]) for k in walk], "src": cfg})
+                if len(covered) != len(edges):
+                    raise MachineryError(f"{cfg}/{variant}: walks cover {len(covered)} of {len(edges)} edges")
+                edges_total += len(edges)
+        walks_s = interleave(walks_s)
+        nparts = 4 if tier == "quick" else 14
+        step = (len(walks_s) + nparts - 1) // nparts
+        for lo in range(0, len(walks_s), step):
+            run_part(walks_s[lo:lo + step])
+        for f in vfuts:
             f.result()
+    finally:
+        dex.shutdown(wait=True)
+        vex.shutdown(wait=True)
     n_graph = sum(1 for s in scen if s["src"] not in ("random", "probe"))
     n_het = sum(1 for s in scen if s["hetero"])
     perlayer = ("lflag", "lupd", "lsel")
@@ -954,7 +985,9 @@ def run(tier: str, seed: int, replay=None) -> int:
                     "graph_walks": n_graph, "graph_walks_heterogeneous": n_het, "random_sequences": sum(1 for s in scen if s["src"] == "random"),
                     "pairwise_heterogeneity_probes": len(probes),
                     "calls_executed": sum(len(s["acts"]) for s in scen),
-                    "forks_executed": {"deepcopy": forks.count("deepcopy"), "pickle_round_trip": forks.count("pickle")},
+                    "forks_executed": {"deepcopy": forks.count("deepcopy"), "pickle_round_trip": forks.count("pickle"),
+                                       "copy_raised_on_non_leaf_theta_alpha_until_detached": sum(
+                                           1 for t in traces for e in t["ev"] if e["act"].get("detached"))},
                     "calls_on_the_copy": sum(1 for t in traces for e in t["ev"] if e["o"] == 2 and e["act"]["a"] != "fork"),
                     "calls_on_the_original_after_the_fork": sum(
                         1 for t in traces for j, e in enumerate(t["ev"])
